@@ -672,7 +672,7 @@ impl<'a> St<'a> {
 
 impl<'a> St<'a> {
     fn open_path_pool(&self, k: u32, prefer_fixture: bool) -> String {
-        let fx: Vec<&str> = if self.miri { vec![FX_D, FX_E] } else { vec![FX_A, FX_B, FX_C, FX_D, FX_E, FX_F, FX_S, FX_U] };
+        let fx: Vec<&str> = if self.miri { vec![FX_D, FX_E] } else { vec![FX_A, FX_B, FX_C, FX_D, FX_E, FX_F, FX_S, FX_U, FX_X, FX_W, FX_V] };
         if prefer_fixture {
             return p2s(&self.dir.join(fx[k as usize % fx.len()]));
         }
@@ -753,14 +753,23 @@ impl<'a> St<'a> {
         let path = self.create_target(p.x[0]);
         let disp = p.x[1] % 7;
         let hts = [16u32, 4, 1024, 0, 3, 15, 0x8000_0000, u32::MAX][(p.x[2] % 8) as usize];
+        let null_name = p.x[3] % 23 == 0;
+        let null_out = p.x[3] % 29 == 1;
         let cp = cs(&path);
         let out = self.buf(8);
         unsafe { *(out.ptr() as *mut usize) = 0 };
         self.begin("SFileCreateArchive", "path");
-        let ok = unsafe { SFileCreateArchive(cp.as_ptr(), disp, hts, out.ptr() as *mut HANDLE) };
+        let ok = unsafe { SFileCreateArchive(if null_name { ptr::null() } else { cp.as_ptr() }, disp, hts, if null_out { ptr::null_mut() } else { out.ptr() as *mut HANDLE }) };
         let id = unsafe { *(out.ptr() as *const usize) };
-        self.end("SFileCreateArchive", "path", format!("({path:?},disp={disp},hash={hts})->{ok},h={id}"), ok);
+        self.end("SFileCreateArchive", "path", format!("({path:?},disp={disp},hash={hts}{}{})->{ok},h={id}", if null_name { ",NULLNAME" } else { "" }, if null_out { ",NULLOUT" } else { "" }), ok);
         self.check_canary("SFileCreateArchive", "path", "out-handle", &out);
+        if null_name || null_out {
+            self.c.count("null_pointer_arguments|SFileCreateArchive", 1);
+            if ok {
+                self.viol("invalid-parameter-accepted", "SFileCreateArchive", "null-pointer", "returned-success", "SFileCreateArchive succeeded with a null pointer argument".into());
+            }
+            return;
+        }
         if !ok {
             return;
         }
@@ -790,6 +799,8 @@ impl<'a> St<'a> {
         let cb = std::mem::size_of::<SFILE_CREATE_MPQ>() as u32;
         let cb_size = if !scripted && p.x[3] % 13 == 0 { [0u32, cb - 1, cb + 4][(p.x[3] / 13 % 3) as usize] } else { cb };
         let null_info = !scripted && p.x[3] % 31 == 1;
+        let null_name = !scripted && p.x[3] % 37 == 2;
+        let null_out = !scripted && p.x[3] % 41 == 3;
         let info = SFILE_CREATE_MPQ {
             cb_size,
             mpq_version: version,
@@ -808,10 +819,17 @@ impl<'a> St<'a> {
         let out = self.buf(8);
         unsafe { *(out.ptr() as *mut usize) = 0 };
         self.begin("SFileCreateArchive2", "path");
-        let ok = unsafe { SFileCreateArchive2(cp.as_ptr(), if null_info { ptr::null() } else { &info }, out.ptr() as *mut HANDLE) };
+        let ok = unsafe { SFileCreateArchive2(if null_name { ptr::null() } else { cp.as_ptr() }, if null_info { ptr::null() } else { &info }, if null_out { ptr::null_mut() } else { out.ptr() as *mut HANDLE }) };
         let id = unsafe { *(out.ptr() as *const usize) };
-        self.end("SFileCreateArchive2", "path", format!("({path:?},v={version},cb={cb_size},list={},attr={},sect={}{})->{ok},h={id}", info.file_flags_1, info.attr_flags, info.sector_size, if null_info { ",NULLINFO" } else { "" }), ok);
+        self.end("SFileCreateArchive2", "path", format!("({path:?},v={version},cb={cb_size},list={},attr={},sect={}{}{}{})->{ok},h={id}", info.file_flags_1, info.attr_flags, info.sector_size, if null_info { ",NULLINFO" } else { "" }, if null_name { ",NULLNAME" } else { "" }, if null_out { ",NULLOUT" } else { "" }), ok);
         self.check_canary("SFileCreateArchive2", "path", "out-handle", &out);
+        if null_name || null_out {
+            self.c.count("null_pointer_arguments|SFileCreateArchive2", 1);
+            if ok {
+                self.viol("invalid-parameter-accepted", "SFileCreateArchive2", "null-pointer", "returned-success", "SFileCreateArchive2 succeeded with a null file name / null out-handle pointer".into());
+            }
+            return;
+        }
         if !ok {
             return;
         }
@@ -1217,13 +1235,21 @@ impl<'a> St<'a> {
         let (valid, label, at) = self.classify(id, Want::Arch);
         let plen = at.filter(|_| valid).map(|x| self.archs[x.1].path.len()).unwrap_or(20);
         let size = [plen + 1, 1024, plen, 0, 1, plen + 2, 300, plen.saturating_sub(1)][(p.x[0] % 8) as usize];
+        let null_buf = p.x[1] % 13 == 5;
         let b = self.buf(size);
         self.begin("SFileGetArchiveName", label);
-        let ok = unsafe { SFileGetArchiveName(h(id), b.ptr() as *mut c_char, size as u32) };
-        self.end("SFileGetArchiveName", label, format!("(h={id}[{label}],size={size},need={})->{ok}", plen + 1), ok);
+        let ok = unsafe { SFileGetArchiveName(h(id), if null_buf { ptr::null_mut() } else { b.ptr() as *mut c_char }, size as u32) };
+        self.end("SFileGetArchiveName", label, format!("(h={id}[{label}],size={size},need={}{})->{ok}", plen + 1, if null_buf { ",NULLBUF" } else { "" }), ok);
         self.check_canary("SFileGetArchiveName", label, "name", &b);
         if !valid {
             self.judge_invalid("SFileGetArchiveName", label, ok, true);
+            return;
+        }
+        if null_buf {
+            self.c.count("null_pointer_arguments|SFileGetArchiveName", 1);
+            if ok {
+                self.viol("invalid-parameter-accepted", "SFileGetArchiveName", "null-pointer", "returned-success", format!("SFileGetArchiveName(NULL buffer, size {size}) succeeded"));
+            }
             return;
         }
         let path = self.archs[at.unwrap().1].path.clone();
@@ -1639,6 +1665,7 @@ impl<'a> St<'a> {
         let dest = if p.x[1] % 4 == 0 { p2s(&self.dir.join(format!("out/d{}/x.bin", self.fresh))) } else { p2s(&self.dir.join(format!("out_e{}.bin", self.fresh))) };
         let (cn, cd) = (cs(&name), cs(&dest));
         let null = p.x[2] % 31 == 0;
+        let null_name = p.x[2] % 31 == 1;
         // every third destination already holds a file (an earlier extraction to the same path): longer, shorter, empty
         if p.x[1] % 3 == 1 && p.x[1] % 4 != 0 {
             let prior = vec![0xD7u8; [0usize, 1, 700, 70_000, 400_000][(p.x[2] % 5) as usize]];
@@ -1647,15 +1674,18 @@ impl<'a> St<'a> {
             }
         }
         self.begin("SFileExtractFile", label);
-        let ok = unsafe { SFileExtractFile(h(id), cn.as_ptr(), if null { ptr::null() } else { cd.as_ptr() }, 0) };
-        self.end("SFileExtractFile", label, format!("(h={id}[{label}],{:?}{})->{ok}", short(&name), if null { ",NULLDEST" } else { "" }), ok);
+        let ok = unsafe { SFileExtractFile(h(id), if null_name { ptr::null() } else { cn.as_ptr() }, if null { ptr::null() } else { cd.as_ptr() }, 0) };
+        self.end("SFileExtractFile", label, format!("(h={id}[{label}],{:?}{}{})->{ok}", short(&name), if null { ",NULLDEST" } else { "" }, if null_name { ",NULLNAME" } else { "" }), ok);
         if !valid {
             self.judge_invalid("SFileExtractFile", label, ok, true);
             return;
         }
-        if null {
+        if null || null_name {
+            if null_name {
+                self.c.count("null_pointer_arguments|SFileExtractFile|name", 1);
+            }
             if ok {
-                self.viol("invalid-parameter-accepted", "SFileExtractFile", "null-pointer", "returned-success", "SFileExtractFile succeeded with a null destination".into());
+                self.viol("invalid-parameter-accepted", "SFileExtractFile", "null-pointer", "returned-success", "SFileExtractFile succeeded with a null name / destination".into());
             }
             return;
         }
@@ -1760,6 +1790,33 @@ impl<'a> St<'a> {
         if ok {
             self.live_ok += 1;
         }
+        // the verdict on the signature is an answer about the archive: it must be the one the Rust API gives for the same file
+        let eff = if flags == 0 { 0x10 } else { flags };
+        if eff & 0x10 != 0 {
+            let ai = at.unwrap().1;
+            let rust = match &mut self.archs[ai].shadow {
+                Shadow::Ro(a) => trap(|| a.verify_signature()),
+                Shadow::Mut(m) => trap(|| m.verify_signature()),
+                Shadow::Gone => return,
+            };
+            self.c.count("rust_api_calls", 1);
+            let Ok(rust) = rust else {
+                self.c.count("rust_side_panicked", 1);
+                return;
+            };
+            use wow_mpq::SignatureStatus as S;
+            let status = match &rust {
+                Ok(s) => format!("{s:?}"),
+                Err(_) => "error".to_string(),
+            };
+            self.c.count(&format!("signature_verdicts_compared|rust={status}"), 1);
+            let rejects = matches!(rust, Ok(S::WeakInvalid) | Ok(S::StrongInvalid) | Err(_));
+            if rejects && ok {
+                self.viol("agreement-verify", "SFileVerifyArchive", label, &format!("c=verified,rust={status}"), format!("SFileVerifyArchive(h, {flags:#x}) = true, but Archive::verify_signature on the same archive says {status}"));
+            } else if !rejects && !ok && eff & 0x20 == 0 {
+                self.viol("agreement-verify", "SFileVerifyArchive", label, &format!("c=refused,rust={status}"), format!("SFileVerifyArchive(h, {flags:#x}) = false although no file verification was asked for and Archive::verify_signature on the same archive says {status}"));
+            }
+        }
     }
 
     fn src_path(&self, k: u32) -> String {
@@ -1794,24 +1851,30 @@ impl<'a> St<'a> {
         };
         let name2 = if p.x[2] % 4 == 0 { self.name_for(ai, (p.x[2] / 4).wrapping_mul(16)) } else { format!("ren\\r{}.dat", p.x[2] % 1000) };
         let existing = self.name_for(ai, (p.x[0] / 8).wrapping_mul(16).wrapping_add((p.x[0] % 11).min(8)));
-        let flags = [0u32, 0, 0x0001_0000, 0x0003_0000, 0x8000_0000, 0x8001_0000][(p.x[3] % 6) as usize];
-        let comp = [0u32, 0x02, 0x10, 0x12, 0x20, 0xFF, 0, 0x02][((p.x[3] >> 8) % 8) as usize];
+        // flags: none, ENCRYPTED, ENCRYPTED|FIX_KEY, REPLACEEXISTING (+ENCRYPTED), FIX_KEY alone, REPLACEEXISTING|FIX_KEY
+        let flags = [0u32, 0, 0x0001_0000, 0x0003_0000, 0x8000_0000, 0x8001_0000, 0x0002_0000, 0x8002_0000][(p.x[3] % 8) as usize];
+        // compression: none, zlib, bzip2, LZMA, sparse, an undefined mask, and the two ADPCM codecs (lossy: the reference is the
+        // Rust API adding the same source with the same codec, never the source bytes)
+        let comp = [0u32, 0x02, 0x10, 0x12, 0x20, 0xFF, 0, 0x02, 0x40, 0x80][((p.x[3] >> 8 & 0xFF) % 10) as usize];
         let null = p.x[3] >> 16 & 63 == 0;
+        // the other string of the call (source path of an add, old name of a rename) as a null pointer
+        let null_first = p.x[3] >> 22 & 31 == 5;
         let (csrc, cname, cname2, cex) = (cs(&src), cs(&name), cs(&name2), cs(&existing));
         let np = |c: &CString| if null { ptr::null() } else { c.as_ptr() };
+        let np1 = |c: &CString| if null_first { ptr::null() } else { c.as_ptr() };
         let (func, ok, text): (&'static str, bool, String);
         match f {
             F::AddFileEx => {
                 func = "SFileAddFileEx";
                 self.begin(func, label);
-                ok = unsafe { SFileAddFileEx(h(id), csrc.as_ptr(), np(&cname), flags, comp, 0) };
-                text = format!("(h={id}[{label}],src={:?},{:?},flags={flags:#x},comp={comp:#x}{})->{ok}", src.rsplit('/').next().unwrap_or(""), short(&name), if null { ",NULLNAME" } else { "" });
+                ok = unsafe { SFileAddFileEx(h(id), np1(&csrc), np(&cname), flags, comp, 0) };
+                text = format!("(h={id}[{label}],src={:?},{:?},flags={flags:#x},comp={comp:#x}{}{})->{ok}", src.rsplit('/').next().unwrap_or(""), short(&name), if null { ",NULLNAME" } else { "" }, if null_first { ",NULLSRC" } else { "" });
             }
             F::AddFile => {
                 func = "SFileAddFile";
                 self.begin(func, label);
-                ok = unsafe { SFileAddFile(h(id), csrc.as_ptr(), np(&cname), flags) };
-                text = format!("(h={id}[{label}],src={:?},{:?},flags={flags:#x}{})->{ok}", src.rsplit('/').next().unwrap_or(""), short(&name), if null { ",NULLNAME" } else { "" });
+                ok = unsafe { SFileAddFile(h(id), np1(&csrc), np(&cname), flags) };
+                text = format!("(h={id}[{label}],src={:?},{:?},flags={flags:#x}{}{})->{ok}", src.rsplit('/').next().unwrap_or(""), short(&name), if null { ",NULLNAME" } else { "" }, if null_first { ",NULLSRC" } else { "" });
             }
             F::RemoveFile => {
                 func = "SFileRemoveFile";
@@ -1822,8 +1885,8 @@ impl<'a> St<'a> {
             F::RenameFile => {
                 func = "SFileRenameFile";
                 self.begin(func, label);
-                ok = unsafe { SFileRenameFile(h(id), cex.as_ptr(), np(&cname2)) };
-                text = format!("(h={id}[{label}],{:?}->{:?}{})->{ok}", short(&existing), short(&name2), if null { ",NULLNAME" } else { "" });
+                ok = unsafe { SFileRenameFile(h(id), np1(&cex), np(&cname2)) };
+                text = format!("(h={id}[{label}],{:?}->{:?}{}{})->{ok}", short(&existing), short(&name2), if null { ",NULLNAME" } else { "" }, if null_first { ",NULLOLDNAME" } else { "" });
             }
             F::CompactArchive => {
                 func = "SFileCompactArchive";
@@ -1844,9 +1907,13 @@ impl<'a> St<'a> {
             return;
         }
         let takes_name = !matches!(f, F::CompactArchive | F::FlushArchive) && f != F::FlushArchive;
-        if null && takes_name {
+        let takes_two = matches!(f, F::AddFileEx | F::AddFile | F::RenameFile);
+        if (null && takes_name) || (null_first && takes_two) {
+            if null_first && takes_two {
+                self.c.count(&format!("null_pointer_arguments|{func}|{}", if f == F::RenameFile { "old-name" } else { "source-path" }), 1);
+            }
             if ok {
-                self.viol("invalid-parameter-accepted", func, "null-pointer", "returned-success", format!("{func} succeeded with a null name"));
+                self.viol("invalid-parameter-accepted", func, "null-pointer", "returned-success", format!("{func} succeeded with a null string argument"));
             }
             return;
         }
@@ -1872,6 +1939,14 @@ impl<'a> St<'a> {
             return;
         };
         self.c.count("modify_outcomes_compared", 1);
+        if matches!(f, F::AddFileEx | F::AddFile) {
+            if f == F::AddFileEx && (comp == 0x40 || comp == 0x80) {
+                self.c.count(if ok { "adds_with_adpcm_compression_accepted" } else { "adds_with_adpcm_compression_refused" }, 1);
+            }
+            if flags & 0x0003_0000 == 0x0002_0000 {
+                self.c.count(if ok { "adds_with_fix_key_alone_accepted" } else { "adds_with_fix_key_alone_refused" }, 1);
+            }
+        }
         if ok != rust.is_ok() {
             self.viol("agreement-modify", func, label, if ok { "c=success,rust=error" } else { "c=failure,rust=ok" }, format!("{func} = {ok} but the same operation through MutableArchive on an identical copy gave {rust:?}"));
             return;
@@ -2036,7 +2111,7 @@ fn run_history(c: &mut Case, idx: u64, plan: &[PlanOp], exact: bool, miri: bool,
 
 // ------------------------------------------------------------------ scripted probes ----
 
-const NPROBE: u64 = 19;
+const NPROBE: u64 = 21;
 
 fn probe_plan(k: u64) -> (&'static str, Vec<PlanOp>) {
     let z = [0u32; 4];
@@ -2045,7 +2120,7 @@ fn probe_plan(k: u64) -> (&'static str, Vec<PlanOp>) {
     let mk_mut = op(F::CreateArchive2, HSel::Null, [0, 0, 1, 0]);
     match k {
         2 => ("find-after-archive-close", vec![open_a, op(F::FindFirstFile, HSel::Live(0), [1, 1, 0, 0]), op(F::CloseArchive, HSel::Live(0), z), op(F::FindNextFile, HSel::Orphan(0), [0, 1, 0, 0]), op(F::FindClose, HSel::Orphan(0), z)]),
-        3 => ("hasfile-after-add-on-mutable", vec![mk_mut, op(F::AddFileEx, HSel::Live(0), [0, 2, 1, 0x0001_0600]), op(F::HasFile, HSel::Live(0), [0, 1, 0, 0]), op(F::OpenFileEx, HSel::Live(0), [0, 1, 0, 0]), op(F::ReadFile, HSel::Live(0), [7, 1, 0, 0]), op(F::GetFileSize, HSel::Live(0), z)]),
+        3 => ("hasfile-after-add-on-mutable", vec![mk_mut, op(F::AddFileEx, HSel::Live(0), [0, 2, 1, 0x0001_0604]), op(F::HasFile, HSel::Live(0), [0, 1, 0, 0]), op(F::OpenFileEx, HSel::Live(0), [0, 1, 0, 0]), op(F::ReadFile, HSel::Live(0), [7, 1, 0, 0]), op(F::GetFileSize, HSel::Live(0), z)]),
         5 => (
             "close-exactness",
             vec![
@@ -2109,7 +2184,7 @@ fn probe_plan(k: u64) -> (&'static str, Vec<PlanOp>) {
         }
         10 => ("enumerate-every-fixture", (0..NFIX).flat_map(|i| vec![op(F::OpenArchive, HSel::Null, [i, 1, 0, 0]), op(F::EnumAll, HSel::Live(i), z), op(F::EnumFiles, HSel::Live(i), [1, 2, 0, 0]), op(F::EnumFiles, HSel::Live(i), [0, 1, 0, 0])]).collect()),
         11 => ("long-name-through-every-name-buffer", vec![open_a, op(F::OpenFileEx, HSel::Live(0), [8, 1, 0, 0]), op(F::GetFileName, HSel::Live(0), [1, 0, 0, 0]), op(F::ReadFile, HSel::Live(0), [6, 1, 0, 0]), op(F::HasFile, HSel::Live(0), [13, 1, 0, 0]), op(F::FindFirstFile, HSel::Live(0), [22, 1, 0, 0]), op(F::EnumAll, HSel::Live(0), z)]),
-        13 => ("hasfile-after-compact-and-remove-on-mutable", vec![mk_mut, op(F::AddFileEx, HSel::Live(0), [0, 2, 1, 0x0001_0600]), op(F::CompactArchive, HSel::Live(0), z), op(F::HasFile, HSel::Live(0), [0, 1, 0, 0]), op(F::RemoveFile, HSel::Live(0), [0, 0, 1, 0x0001_0000]), op(F::HasFile, HSel::Live(0), [11, 1, 0, 0]), op(F::OpenFileEx, HSel::Live(0), [11, 2, 1, 0])]),
+        13 => ("hasfile-after-compact-and-remove-on-mutable", vec![mk_mut, op(F::AddFileEx, HSel::Live(0), [0, 2, 1, 0x0001_0604]), op(F::CompactArchive, HSel::Live(0), z), op(F::HasFile, HSel::Live(0), [0, 1, 0, 0]), op(F::RemoveFile, HSel::Live(0), [0, 0, 1, 0x0001_0000]), op(F::HasFile, HSel::Live(0), [11, 1, 0, 0]), op(F::OpenFileEx, HSel::Live(0), [11, 2, 1, 0])]),
         14 => {
             // every fixture x every listed name x every mask shape x every position of the name (front positions 0..=24 and
             // the last six), each as FindFirst + FindNext to exhaustion + FindClose, judged against the glob model
@@ -2129,7 +2204,7 @@ fn probe_plan(k: u64) -> (&'static str, Vec<PlanOp>) {
             // a file handle stays open while the file behind its name is replaced (15) / removed and added again under a new
             // name that is then renamed onto the old one (16); handles opened afterwards deliver what the archive holds now,
             // the older handle keeps what it was opened with (after C19-r6m1)
-            let add = |namesel: u32, src: u32| op(F::AddFileEx, HSel::Live(0), [namesel, src, 1, 0x0001_0600]);
+            let add = |namesel: u32, src: u32| op(F::AddFileEx, HSel::Live(0), [namesel, src, 1, 0x0001_0604]);
             let mut v = vec![mk_mut, add(0, 2), op(F::OpenFileEx, HSel::Live(0), [0, 1, 0, 0]), op(F::ReadFile, HSel::Live(0), [3, 1, 0, 0])];
             if k == 15 {
                 v.push(add(5, 4));
@@ -2174,6 +2249,64 @@ fn probe_plan(k: u64) -> (&'static str, Vec<PlanOp>) {
                 op(F::ReadFile, HSel::Live(0), [5, 1, 0, 0]),
                 op(F::ReadFile, HSel::Live(1), [5, 1, 0, 0]),
                 op(F::FindNextFile, HSel::Live(0), [0, 1, 0, 0]),
+                op(F::EnumAll, HSel::Live(0), z),
+            ],
+        ),
+        19 => {
+            // members stored encrypted (plain key and adjusted key, compressed and raw) are opened, sized, read to the end, verified and
+            // extracted through handles of SFileOpenArchive; a weakly signed archive and the same archive changed after signing go
+            // through SFileVerifyArchive with and without the signature flag
+            let mut v = vec![op(F::OpenArchive, HSel::Null, [8, 1, 0, 0]), op(F::OpenArchive, HSel::Null, [9, 1, 0, 0]), op(F::OpenArchive, HSel::Null, [10, 1, 0, 0])];
+            for a in 0..3u32 {
+                for fl in [1u32, 0, 6, 2, 3] {
+                    v.push(op(F::VerifyArchive, HSel::Live(a), [fl, 0, 0, 0]));
+                }
+                v.push(op(F::EnumAll, HSel::Live(a), z));
+            }
+            let mut nfile = 0u32;
+            for (a, n) in [(0u32, 5u32), (1, 3), (2, 3)] {
+                for k in 0..n {
+                    v.push(op(F::OpenFileEx, HSel::Live(a), [k, 1, 0, 0]));
+                    v.push(op(F::GetFileSize, HSel::Live(nfile), z));
+                    v.push(op(F::ReadFile, HSel::Live(nfile), [2, 2, 0, 0]));
+                    v.push(op(F::ReadFile, HSel::Live(nfile), [9, 2, 0, 0]));
+                    v.push(op(F::ReadFile, HSel::Live(nfile), [3, 2, 0, 0]));
+                    v.push(op(F::GetFileInfo, HSel::Live(3 + nfile), [0, 0, 1, 0]));
+                    for fl in [0u32, 1, 4, 5] {
+                        v.push(op(F::VerifyFile, HSel::Live(a), [16 * k, fl, 1, 0]));
+                    }
+                    v.push(op(F::ExtractFile, HSel::Live(a), [16 * k, 1, 2, 0]));
+                    nfile += 1;
+                }
+            }
+            ("encrypted-members-and-signed-archives", v)
+        }
+        20 => (
+            // each string / buffer / out-handle pointer of the modifying, extracting, naming and creating calls as NULL, on live handles
+            "null-pointer-arguments-on-live-handles",
+            vec![
+                mk_mut,
+                open_a,
+                op(F::AddFileEx, HSel::Live(0), [0, 2, 1, 0x0001_0604]),
+                op(F::AddFileEx, HSel::Live(0), [0, 2, 1, 0x0001_0604 | 5 << 22]),
+                op(F::AddFile, HSel::Live(0), [0, 2, 1, 0x0001_0604 | 5 << 22]),
+                op(F::AddFileEx, HSel::Live(0), [0, 2, 1, 0x0000_0604]),
+                op(F::RenameFile, HSel::Live(0), [0, 0, 3 + 4 * 991, 0x0001_0000 | 5 << 22]),
+                op(F::RenameFile, HSel::Live(0), [0, 0, 3 + 4 * 991, 0]),
+                op(F::RemoveFile, HSel::Live(0), [0, 0, 1, 0]),
+                op(F::ExtractFile, HSel::Live(0), [0, 1, 1, 0]),
+                op(F::ExtractFile, HSel::Live(1), [0, 1, 1, 0]),
+                op(F::ExtractFile, HSel::Live(1), [0, 1, 0, 0]),
+                op(F::GetArchiveName, HSel::Live(0), [0, 5, 0, 0]),
+                op(F::GetArchiveName, HSel::Live(1), [1, 5, 0, 0]),
+                op(F::GetArchiveName, HSel::Live(1), [3, 5, 0, 0]),
+                op(F::CreateArchive, HSel::Null, [0, 2, 0, 0]),
+                op(F::CreateArchive, HSel::Null, [0, 2, 0, 1]),
+                op(F::CreateArchive2, HSel::Null, [0, 1, 0, 76]),
+                op(F::CreateArchive2, HSel::Null, [0, 1, 0, 44]),
+                op(F::HasFile, HSel::Live(0), [0, 1, 0, 0]),
+                op(F::OpenFileEx, HSel::Live(0), [0, 1, 0, 0]),
+                op(F::ReadFile, HSel::Live(0), [9, 2, 0, 0]),
                 op(F::EnumAll, HSel::Live(0), z),
             ],
         ),
@@ -2236,14 +2369,14 @@ fn special_probe(c: &mut Case, k: u64, idx: u64, exact: bool, fixtures: &std::pa
                 st.c.inconclusive("could not create the archive");
                 return false;
             }
-            st.do_modify(op(F::AddFileEx, HSel::Live(0), [0, 3, 1, 0x0001_0600]), false);
-            st.do_modify(op(F::AddFileEx, HSel::Live(0), [0, 2, 1, 0x0001_0600]), false);
+            st.do_modify(op(F::AddFileEx, HSel::Live(0), [0, 3, 1, 0x0001_0604]), false);
+            st.do_modify(op(F::AddFileEx, HSel::Live(0), [0, 2, 1, 0x0001_0604]), false);
             st.do_modify(op(F::FlushArchive, HSel::Live(0), z), false);
             st.do_open_file(op(F::OpenFileEx, HSel::Live(0), [0, 1, 0, 0]));
             st.do_open_file(op(F::OpenFileEx, HSel::Live(0), [1, 1, 0, 0]));
             st.do_find_first(op(F::FindFirstFile, HSel::Live(0), [1, 1, 0, 0]), false);
             st.do_read(op(F::ReadFile, HSel::Live(0), [3, 1, 0, 0]));
-            st.do_modify(op(F::AddFileEx, HSel::Live(0), [0, 4, 1, 0x0001_0600]), false);
+            st.do_modify(op(F::AddFileEx, HSel::Live(0), [0, 4, 1, 0x0001_0604]), false);
             st.fault_close = true;
             st.do_close_archive(op(F::CloseArchive, HSel::Live(0), z));
             st.fault_close = false;
